@@ -7,8 +7,10 @@ K0 == 2000
 \* size = distinct cells + references + input bytes; capped so that 32-bit arithmetic is exact
 WorkBound(size) == IF size > 6000 THEN 1800002000 ELSE K * size * size + K0
 \* record: [kind, n, e, len (input bytes), work, aborted (1 if the tracer stopped the call at the budget), budget]
+\*         optional outn: entries of the result the call has to produce (a dictionary whose forks share children denotes one entry per
+\*         root-to-leaf path: producing them is work the input size does not bound, so it is counted with the input)
 Failed(r) ==
-    LET b == WorkBound(r.n + r.e + r.len) IN
+    LET b == WorkBound(r.n + r.e + r.len + (IF Has(r, "outn") THEN r.outn ELSE 0)) IN
     Clause("MACHINERY_budget_differs_from_spec_bound", r.budget = b)
     \cup Clause("work_within_bound_" \o r.kind, r.work <= b /\ r.aborted = 0)
 TInit == KitInit
